@@ -119,7 +119,7 @@ def mutation_points(path):
 
 
 def sh(cmd, timeout=3600, env=None):
-    r = subprocess.run(cmd, shell=True, stdout=subprocess.PIPE, stderr=subprocess.STDOUT, text=True, timeout=timeout, env=env, errors="replace")
+    r = subprocess.run(["bash", "-o", "pipefail", "-c", cmd], stdout=subprocess.PIPE, stderr=subprocess.STDOUT, text=True, timeout=timeout, env=env, errors="replace")
     return r.returncode, r.stdout
 
 
